@@ -6,7 +6,7 @@
    repeat-free; no cycle; back edges go to proper ancestors; every pair of variables
    sharing a constraint is linked by a tree edge or a back edge; each node carries exactly
    the constraints on its variable. *)
-From PyDcop Require Import Base M_PseudoTree P_PseudoTree.
+From PyDcop Require Import Base M_PseudoTree M_PseudoTree2 P_PseudoTree P_PseudoTree2 P_PseudoTree3.
 
 (* The verified checker: whatever tree passes pt_check is valid, for graphs and trees of
    any size.  The harness evaluates pt_check inside Coq on every tree returned by the real
@@ -75,18 +75,78 @@ Theorem pt_links_partial : forall g roots t, build g = Some (roots, t) ->
     In y (g_vars g) /\ exists sc, In sc (g_rels g) /\ In (n_id n) sc /\ In y sc.
 Proof. exact build_links_l. Qed.
 
+(* ---- DFS correctness proper of the builder model, for ALL graphs of ALL sizes (n-ary
+   constraints, disconnected graphs, isolated variables), proved in P_PseudoTree2/3 by a
+   Hoare-style contract over the token-passing traversal (visited set, token = root-to-node
+   path, every edge of a finished node has carried the token) and an induction on the forest
+   loop.  Hypothesis  wf_graph g := NoDup (g_vars g) /\ forall sc, In sc (g_rels g) ->
+   NoDup sc /\ incl sc (g_vars g)  -- distinct variables, no constraint lists a variable twice,
+   constraints range over the variables of the problem (true of every DCOP; the harness
+   evaluates the executable wf_graphb on every graph given to the real builder). ---- *)
+
+(* FULL: the builder never runs out of recursion fuel and its result is PT_valid. *)
+Theorem build_valid : forall g, wf_graph g ->
+  exists roots t, build g = Some (roots, t) /\ PT_valid g t.
+Proof. exact build_valid_l. Qed.
+
+Theorem build_no_fuel_exhaustion : forall g, wf_graph g -> build g <> None.
+Proof. exact build_no_fuel_l. Qed.
+
+(* FULL (supersedes pt_nodes_partial): exactly one node per variable. *)
+Theorem pt_nodes : forall g roots t, wf_graph g -> build g = Some (roots, t) ->
+  NoDup (t_ids t) /\ forall v, In v (t_ids t) <-> In v (g_vars g).
+Proof. exact pt_nodes_l. Qed.
+
+(* FULL (with pt_acyclic and pt_edges_ancestral supersedes pt_links_partial):
+   parent/children and pseudo-parent/pseudo-children are converse relations, without repeats. *)
+Theorem pt_links_converse : forall g roots t, wf_graph g -> build g = Some (roots, t) ->
+  (forall a b, t_parent t a = Some b <-> In a (t_children t b)) /\
+  (forall a b, In b (t_pps t a) <-> In a (t_pcs t b)) /\
+  (forall a, NoDup (t_children t a) /\ NoDup (t_pps t a) /\ NoDup (t_pcs t a)).
+Proof. exact pt_links_converse_l. Qed.
+
+(* FULL: no cycle, every node reaches a parentless node. *)
+Theorem pt_acyclic : forall g roots t, wf_graph g -> build g = Some (roots, t) ->
+  (forall a, ~ anc t a a) /\ (forall a, rooted t a).
+Proof. exact pt_acyclic_l. Qed.
+
+(* FULL: every pair of constraint-sharing variables is in ancestor/descendant relation and
+   directly linked by a tree edge or a back edge. *)
+Theorem pt_edges_ancestral : forall g roots t, wf_graph g -> build g = Some (roots, t) ->
+  forall sc a b, In sc (g_rels g) -> In a sc -> In b sc -> a <> b ->
+    (anc t a b \/ anc t b a) /\ linked t a b.
+Proof. exact pt_edges_ancestral_l. Qed.
+
+(* FULL: a forest -- the roots returned are exactly the nodes without parent. *)
+Theorem pt_roots : forall g roots t, wf_graph g -> build g = Some (roots, t) ->
+  forall x, In x roots <-> In x (t_ids t) /\ t_parent t x = None.
+Proof. exact pt_roots_l. Qed.
+
+(* the executable well-formedness test used by the correspondence implies the hypothesis *)
+Theorem wf_graphb_sound : forall g, wf_graphb g = true -> wf_graph g.
+Proof. exact wf_graphb_sound_l. Qed.
+
+(* The hypothesis cannot be dropped: with a constraint that lists a variable twice the
+   variable becomes its own child and the model's node listing exhausts its fuel (the real
+   code raises ValueError from variables.remove on such a constraint). *)
+Theorem build_needs_wf_refuted :
+  exists g, NoDup (g_vars g) /\ (forall sc, In sc (g_rels g) -> incl sc (g_vars g)) /\
+    build g = None.
+Proof. exact build_needs_wf_l. Qed.
+
 (* non-vacuity: a 6-variable graph with a triangle, a 3-ary constraint, a unary constraint and an
    isolated variable: the builder model returns a two-tree forest with a back edge, the checker
    accepts it, hence it is PT_valid. *)
 Example c17_nonvacuous :
   let g := mkGraph [0; 1; 2; 3; 4; 5] [[0; 1]; [1; 2]; [2; 0]; [2; 3; 4]; [4]] in
   exists roots t, build g = Some (roots, t) /\ List.length roots = 2%nat /\
-    (exists n, In n t /\ n_pps n <> []) /\ pt_check g t = true /\ PT_valid g t.
+    (exists n, In n t /\ n_pps n <> []) /\ pt_check g t = true /\ PT_valid g t /\ wf_graph g.
 Proof.
   intro g.
   destruct (build g) as [[roots t]|] eqn:E; [|vm_compute in E; discriminate].
   exists roots, t. vm_compute in E. inversion E; subst roots t; clear E.
   split; [reflexivity|]. split; [reflexivity|]. split.
   - eexists. split; [right; right; left; reflexivity|]. discriminate.
-  - split; [vm_compute; reflexivity|]. apply pt_check_sound. vm_compute. reflexivity.
+  - split; [vm_compute; reflexivity|]. split; [apply pt_check_sound; vm_compute; reflexivity|].
+    apply wf_graphb_sound. vm_compute. reflexivity.
 Qed.
